@@ -347,3 +347,36 @@ func vhC20Median() {
 	vAssert(m.Value() == vMedian3(c, d, e), "C20.median.reading-does-not-disturb-eviction")
 	vCover("C20.median.reach")
 }
+
+// average ETA (NewAverageETA): remaining = (total-current) * round(elapsed/current), printed through the h:m:s
+// producer, for byte-sized counters.  The elapsed time is chosen by the harness (vStartAgo): concrete whole
+// seconds per run (parameter), so that the per-item duration is a constant and the product stays linear; total
+// is symbolic, current one of three magnitudes.  Natively the clock adds the duration of the call, hence an
+// interval oracle of 100 ms.
+func vDivRound(a, b int64) int64 { return (a + b/2) / b }
+
+func vhC20AverageETA() {
+	el := int64(vParam("elapsedSec")) * 1000000000
+	var current int64
+	switch vParam("currentExp") {
+	case 0:
+		current = 1
+	case 1:
+		current = 7000
+	default:
+		current = 1000000000
+	}
+	total := vInt64("total")
+	vAssume(total >= current && total <= 1<<46)
+	lo := (total - current) * vDivRound(el, current)
+	hi := (total - current) * vDivRound(el+100000000, current)
+	vAssume(hi < 60*3600*1000000000)
+	d := NewAverageETA(ET_STYLE_HHMMSS, vStartAgo(el), nil)
+	d.Decor(Statistics{Total: total, Current: current})
+	vAssert(vGhostLen("sprintf.int") == 3, "C20.avgeta.fields")
+	h, m, s := vGhostAt("sprintf.int", 0), vGhostAt("sprintf.int", 1), vGhostAt("sprintf.int", 2)
+	got := h*3600 + m*60 + s
+	vAssert(m >= 0 && m < 60 && s >= 0 && s < 60 && h >= 0, "C20.avgeta.fields-in-range")
+	vAssert(got >= lo/1000000000 && got <= hi/1000000000+1, "C20.avgeta.remaining-time")
+	vCover("C20.avgeta.reach")
+}
